@@ -502,6 +502,8 @@ pub fn all_seeds() -> Vec<Seed> {
     v.push(seed_many_queues());
     v.extend(all_dead_seeds());
     v.push(seed_collected());
+    v.push(seed_sliding_window(5, 2));
+    v.push(seed_sliding_window(8, 2));
     v
 }
 
@@ -521,6 +523,35 @@ pub fn seed_many_queues() -> Seed {
     let mut s = p.seed("many-queues:32 queues, a@early file");
     s.predicted_cursor = None;
     s
+}
+
+/// Queue a used as a sliding window of records a bit longer than a block (33-50 KB in the real
+/// geometry): `rounds` times [append, drop the oldest once more than `keep` are retained]. The
+/// ring buffer behind a has had its head moved and its capacity shrunk several times; depending on
+/// `rounds` the retained bytes wrap around the end of the allocation.
+pub fn seed_sliding_window(rounds: usize, keep: usize) -> Seed {
+    let mut p = Planner::new();
+    p.push(Op::Create(QA)).push(Op::Create(QB));
+    for i in 0..rounds {
+        let n = BLOCK + 1 + BLOCK * ((i * 7 + 3) % 11) / 22;
+        p.push(Op::app(QA, Pos::Auto, Sz::N(n as u32)));
+        if i >= keep {
+            p.push(Op::Trunc { q: QA, at: Tr::First });
+        }
+    }
+    let mut s = p.seed(&format!("sliding-window:{} rounds, keep {}", rounds, keep));
+    s.predicted_cursor = None;
+    s
+}
+
+pub fn sliding_window_seeds() -> Vec<Seed> {
+    let mut v = Vec::new();
+    for rounds in 3..=8 {
+        v.push(seed_sliding_window(rounds, 2));
+    }
+    v.push(seed_sliding_window(6, 1));
+    v.push(seed_sliding_window(7, 3));
+    v
 }
 
 /// `all_seeds` without the two seeds whose images / GC passes are an order of magnitude larger
